@@ -243,39 +243,27 @@ def lossTimeAndEpoch (s : St) : Option (Nat × Nat) :=
     | some t, some (t0, e0) => if t < t0 then some (t, e) else some (t0, e0)
   step (step (step none 0) 1) 2
 
+/-- one iteration of the loop in `get_pto_time_and_epoch` for a space with its duration -/
+def ptoCandidate (sp : Space) (duration e : Nat) (acc : Option (Nat × Nat)) : Except String (Option (Nat × Nat)) :=
+  if noElic sp then .ok acc else
+  match sp.tl with
+  | none => .error "unwrap:tl"
+  | some tl =>
+    .ok (match acc with
+         | none => some (tl + duration, e)
+         | some (t0, e0) => if tl + duration < t0 then some (tl + duration, e) else some (t0, e0))
+
 /-- `get_pto_time_and_epoch` -/
-def ptoTimeAndEpoch (s : St) (srtt rttvar : Nat) : Except String (Option (Nat × Nat)) := do
-  if s.pto ≥ 32 then throw "shl:pto_count"
-  let duration := basePto srtt rttvar s.pto
-  if noElicAll s then
-    return some (s.now + duration, if s.hsKey then 1 else 0)
-  let mut ptoTime : Option (Nat × Nat) := none
-  -- Initial
-  if !noElic s.s0 then
-    match s.s0.tl with
-    | none => throw "unwrap:tl"
-    | some tl => ptoTime := some (tl + duration, 0)
-  -- Handshake
-  if !noElic s.s1 then
-    match s.s1.tl with
-    | none => throw "unwrap:tl"
-    | some tl =>
-      let t := tl + duration
-      ptoTime := match ptoTime with
-        | none => some (t, 1)
-        | some (t0, e0) => if t < t0 then some (t, 1) else some (t0, e0)
-  -- Data
-  if !noElic s.s2 then
-    if !s.confirmed then return ptoTime
-    let duration := duration + s.mad * 2 ^ s.pto
-    match s.s2.tl with
-    | none => throw "unwrap:tl"
-    | some tl =>
-      let t := tl + duration
-      ptoTime := match ptoTime with
-        | none => some (t, 2)
-        | some (t0, e0) => if t < t0 then some (t, 2) else some (t0, e0)
-  return ptoTime
+def ptoTimeAndEpoch (s : St) (srtt rttvar : Nat) : Except String (Option (Nat × Nat)) :=
+  if s.pto ≥ 32 then .error "shl:pto_count" else
+  let d := basePto srtt rttvar s.pto
+  if noElicAll s then .ok (some (s.now + d, if s.hsKey then 1 else 0)) else
+  (ptoCandidate s.s0 d 0 none).bind fun a0 =>
+  (ptoCandidate s.s1 d 1 a0).bind fun a1 =>
+  if noElic s.s2 then .ok a1 else
+  -- Skip Application Data until handshake confirmed.
+  if !s.confirmed then .ok a1 else
+  ptoCandidate s.s2 (d + s.mad * 2 ^ s.pto) 2 a1
 
 /-- `set_loss_detection_timer` -/
 def setTimer (s : St) (srtt rttvar : Nat) : Except String St :=
